@@ -56,6 +56,8 @@ const STOPS: &[&str] = &[
     "stop_reading_then_rst",
     "idle_in_txn_timeout",
     "statement_timeout",
+    "statement_timeout_client_gone_rst",
+    "statement_timeout_client_gone_fin",
     "big_result_fin_midstream",
     "copy_out_fin_midstream",
 ];
@@ -133,7 +135,7 @@ fn run_case(case: &Case, rep: &Report) -> Result<(), String> {
     if case.cache {
         cfg.pools[0].set("prepared_statements_cache_size", "8");
     }
-    if case.stop == "statement_timeout" {
+    if case.stop.starts_with("statement_timeout") {
         cfg.pools[0].users[0].extra.push("statement_timeout = 150".into());
     }
     cell.start_pgcat(&cfg, &StartOpts::default())
@@ -337,6 +339,18 @@ fn run_case(case: &Case, rep: &Report) -> Result<(), String> {
             let _ = a.send(&proto::query(&format!("SELECT 1 {}", t("sleep=1500"))));
             let _ = a.drain_to_eof(3000);
             a.close_fin();
+        }
+        "statement_timeout_client_gone_rst" | "statement_timeout_client_gone_fin" => {
+            // the client is already gone when the pooler's statement timeout fires: the pooler
+            // cannot even deliver its error, the server still owes the reply
+            let _ = a.send(&proto::query(&format!("SELECT 1 {}", t("sleep=900"))));
+            sleep_ms(40);
+            if case.stop.ends_with("rst") {
+                a.close_rst();
+            } else {
+                a.close_fin();
+            }
+            sleep_ms(250);
         }
         _ => unreachable!(),
     }
